@@ -76,3 +76,14 @@ Definition chk_kernel (c : kcase) : bool :=
       same_bits (gen_abs_max_from_min_max F64 (dat_emb dx) (dat_emb dy)) (dat_emb (bk_absmax_of dx dy))
   | None => true
   end.
+
+(* ---- a history of calls on one object: the state machine of Model/Bucket.v against the recorded results *)
+Definition res_same (a b : bk_result) : bool :=
+  match a, b with
+  | ResZ x, ResZ y => list_eqb Z.eqb x y
+  | ResD x, ResD y => list_eqb dat_same x y
+  | _, _ => false
+  end.
+Definition hcase := (Z * list (list Z) * list bk_call * list bk_result)%type.
+Definition chk_history (c : hcase) : bool :=
+  let '(size, chunks0, calls, exp) := c in list_eqb res_same (bk_run (mk_obj size chunks0 None) calls) exp.
